@@ -78,6 +78,12 @@ func (a *adapter) Flight(key, cmd string, ttl time.Duration, now time.Time) (Red
 	}
 	vhook("adapter.flight.slow", a, 0, 0)
 	a.mu.Lock()
+	// the entry may have been completed between the two critical sections: a flight registered now would be a second
+	// request, and Delete would keep the completed value (it skips identities with a pending flight)
+	if v := a.store.Get(key + cmd); v.typ != 0 && v.relativePTTL(now) > 0 {
+		a.mu.Unlock()
+		return v, nil
+	}
 	entries := a.flights[key]
 	if entries == nil && a.flights != nil {
 		entries = make(map[string]CacheEntry, 1)
